@@ -8,6 +8,7 @@ import (
 	"crypto/sha256"
 	"fmt"
 	"os"
+	"sync"
 	"time"
 
 	"github.com/brocaar/lorawan"
@@ -425,6 +426,114 @@ func keysCase(s *cases.Set, key lorawan.AES128Key, addr lorawan.DevAddr) {
 		Replay: map[string]interface{}{"api": "multicastsetup.GetMcRootKeyForGenAppKey/ForAppKey/GetMcKEKey/GetMcAppSKey/GetMcNetSKey", "key": fmt.Sprintf("%x", key[:]), "mcaddr": fmt.Sprintf("%x", addr[:])}})
 }
 
+// concurrentKeys: 8 goroutines derive keys at the same time, each for its own McKeys and
+// McAddrs; every derived key must be the one computed sequentially beforehand (the first
+// pair of every goroutine is also a model-compared CKeys case). `total` counts derivations.
+func concurrentKeys(s *cases.Set, r *cq.RNG, total int) {
+	type job struct {
+		key  lorawan.AES128Key
+		addr lorawan.DevAddr
+		want [5]lorawan.AES128Key
+	}
+	derive := func(i int, k lorawan.AES128Key, a lorawan.DevAddr) (lorawan.AES128Key, error) {
+		switch i {
+		case 0:
+			return mc.GetMcAppSKey(k, a)
+		case 1:
+			return mc.GetMcNetSKey(k, a)
+		case 2:
+			return mc.GetMcRootKeyForGenAppKey(k)
+		case 3:
+			return mc.GetMcRootKeyForAppKey(k)
+		}
+		return mc.GetMcKEKey(k)
+	}
+	names := []string{"GetMcAppSKey", "GetMcNetSKey", "GetMcRootKeyForGenAppKey", "GetMcRootKeyForAppKey", "GetMcKEKey"}
+	const workers, perWorker = 8, 32
+	jobs := make([][]job, workers)
+	for g := 0; g < workers; g++ {
+		for j := 0; j < perWorker; j++ {
+			var jb job
+			copy(jb.key[:], r.Bytes(16))
+			copy(jb.addr[:], r.Bytes(4))
+			jb.addr[0] = byte(g<<5) | jb.addr[0]&0x1f // distinct addresses per goroutine
+			for i := 0; i < 5; i++ {
+				cases.Begin("multicastsetup."+names[i], nil)
+				jb.want[i], _ = derive(i, jb.key, jb.addr)
+				cases.End()
+			}
+			jobs[g] = append(jobs[g], jb)
+			if j == 0 {
+				keysCase(s, jb.key, jb.addr)
+			}
+		}
+	}
+	iters := total / workers / 2
+	var mu sync.Mutex
+	type badT struct {
+		g, i     int
+		jb       job
+		got      lorawan.AES128Key
+		panicked string
+	}
+	var bad []badT
+	var wg sync.WaitGroup
+	for g := 0; g < workers; g++ {
+		wg.Add(1)
+		go func(g int) {
+			defer wg.Done()
+			defer func() {
+				if rec := recover(); rec != nil {
+					mu.Lock()
+					bad = append(bad, badT{g: g, i: -1, panicked: fmt.Sprint(rec)})
+					mu.Unlock()
+				}
+			}()
+			for k := 0; k < iters; k++ {
+				jb := jobs[g][k%perWorker]
+				i := k % 2 // the two session keys; now and then the three others
+				if k%16 == 15 {
+					i = 2 + (k/16)%3
+				}
+				for rep := 0; rep < 2; rep++ {
+					got, err := derive(i, jb.key, jb.addr)
+					if err != nil || got != jb.want[i] {
+						mu.Lock()
+						if len(bad) < 10 {
+							bad = append(bad, badT{g: g, i: i, jb: jb, got: got})
+						}
+						mu.Unlock()
+					}
+					if i < 2 {
+						i = 1 - i
+					}
+				}
+			}
+		}(g)
+	}
+	done := make(chan struct{})
+	go func() { wg.Wait(); close(done) }()
+	select {
+	case <-done:
+	case <-time.After(120 * time.Second):
+		s.Fail(cases.GoFail{Key: "hang:concurrent-keys", What: "8 goroutines deriving multicast keys did not finish within 120 s", Replay: map[string]interface{}{"workers": workers}})
+		return
+	}
+	for _, b := range bad {
+		if b.i < 0 {
+			s.Fail(cases.GoFail{Key: "concurrent-keys:panic", What: "a multicast key derivation panicked while 8 goroutines were deriving keys: " + b.panicked,
+				Replay: map[string]interface{}{"goroutines": workers}})
+			continue
+		}
+		s.Fail(cases.GoFail{Key: fmt.Sprintf("concurrent-keys:%s:key=%x:addr=%x", names[b.i], b.jb.key[:], b.jb.addr[:]),
+			What: fmt.Sprintf("multicastsetup.%s returned %x instead of %x while 8 goroutines were deriving keys for other addresses", names[b.i], b.got[:], b.jb.want[b.i][:]),
+			Replay: map[string]interface{}{"api": "multicastsetup." + names[b.i], "key": fmt.Sprintf("%x", b.jb.key[:]), "mcaddr": fmt.Sprintf("%x", b.jb.addr[:]),
+				"sequential_result": fmt.Sprintf("%x", b.jb.want[b.i][:]), "concurrent_result": fmt.Sprintf("%x", b.got[:]), "goroutines": workers, "derivations": iters * 2 * workers}})
+	}
+	s.Extra["concurrent_key_derivations"] = iters * 2 * workers
+	s.Extra["concurrent_key_derivations_rule"] = "8 goroutines, 32 (McKey, McAddr) pairs each, distinct addresses per goroutine; every result equals the sequentially computed key (the first pair of each goroutine is a model-compared case)"
+}
+
 func gensFor(pk *pkg, up bool) []gen {
 	var out []gen
 	for _, g := range pk.gens {
@@ -720,6 +829,13 @@ func main() {
 			}
 			keptCase(s, pk, up, ladderStream(r, pk, up, 300, ""), ladderStream(r, pk, up, 120, ""))
 		}
+	}
+
+	// ---- the key derivations in a tight concurrent loop ----
+	if thorough {
+		concurrentKeys(s, r, 6000000)
+	} else {
+		concurrentKeys(s, r, 1200000)
 	}
 
 	// ---- every remembered encode / decode again: other order, on one P, and from 8 goroutines at once ----
